@@ -292,22 +292,26 @@ var metaVals = []string{"blue", "a b c", "v=1;w=2", "café", "0", "UPPER lower",
 func (p *prog) uploadDecor(body []byte, partOnly bool) (hdr s3c.H, ph string, st *s3c.Stream, class string, eclass string) {
 	var feats []string
 	mode := "signed"
-	switch p.r.Intn(9) {
-	case 3:
+	switch p.r.Intn(12) {
+	case 5:
 		mode, ph = "unsigned", s3c.Unsigned
-	case 4:
+	case 6, 7:
 		mode = "chunked-signed"
 		st = &s3c.Stream{Mode: s3c.StreamSigned, ChunkSizes: []int{p.pickInt(1, 100, 8192, 65536)}}
-	case 5:
+	case 8, 9:
 		algo := s3c.Algos[p.r.Intn(len(s3c.Algos))]
 		mode = "chunked-signed-trailer"
 		st = &s3c.Stream{Mode: s3c.StreamSignedTr, ChunkSizes: []int{p.pickInt(64, 8192, 65536)}, TrailerName: "x-amz-checksum-" + algo}
 		feats = append(feats, "trailer-"+algo)
-	case 6, 7:
+	case 10:
 		algo := s3c.Algos[p.r.Intn(len(s3c.Algos))]
 		mode = "chunked-unsigned-trailer"
 		st = &s3c.Stream{Mode: s3c.StreamUnsignTr, ChunkSizes: []int{p.pickInt(64, 8192, 65536)}, TrailerName: "x-amz-checksum-" + algo}
 		feats = append(feats, "trailer-"+algo)
+	}
+	if st != nil && len(body)/st.ChunkSizes[0] > 2000 {
+		// keep the number of chunks (one HMAC each, on both ends) small for large bodies
+		st.ChunkSizes = []int{len(body)/1000 + 1}
 	}
 	eclass = "valid"
 	if !partOnly {
@@ -402,7 +406,7 @@ func (p *prog) genPut() *op {
 	hdr, ph, st, class, eclass := p.uploadDecor(body, false)
 	if !bOK {
 		eclass = "missing-bucket"
-	} else if strings.HasSuffix(k, "/") && len(body) > 0 && eclass == "valid" {
+	} else if strings.HasSuffix(k, "/") && len(body) > 0 {
 		eclass = "directory-object-with-data"
 	}
 	o := &op{kind: "put", class: class, desc: fmt.Sprintf("PUT /%s/%s len=%d %v", b, k, len(body), hdr), mut: true, bucket: b, keys: []string{b + "/" + k}, dom: "obj"}
@@ -656,6 +660,9 @@ func (p *prog) genCopy() *op {
 				p.m.objs[db][dk] = body
 			}
 		}}
+	if strings.HasPrefix(class, "metadata-directive-replace") {
+		o.storedSig = "metadata-directive-replace"
+	}
 	if !sbOK || !skOK {
 		o.eclass = "source-" + existClass(sbOK, skOK)
 		o.class = o.eclass
@@ -862,8 +869,20 @@ func (p *prog) partBody(big bool) []byte {
 func (p *prog) genCreateMPU() (*op, *mup) {
 	b, bOK := p.bucket()
 	k, _ := p.key(b, 20)
-	for strings.HasSuffix(k, "/") {
+	busy := func(k string) bool {
+		// upload ids are random: two open uploads of one key list in an order that legitimately differs between gateways
+		for _, u := range p.m.ups {
+			if u.open && u.bucket == b && u.key == k {
+				return true
+			}
+		}
+		return false
+	}
+	for i := 0; (strings.HasSuffix(k, "/") || busy(k)) && i < 50; i++ {
 		k, _ = p.key(b, 20)
+	}
+	if strings.HasSuffix(k, "/") || busy(k) {
+		k = fmt.Sprintf("mpu-%d", p.m.nslot)
 	}
 	p.m.nslot++
 	u := &mup{slot: p.m.nslot, bucket: b, key: k, parts: map[int][]byte{}}
@@ -1195,7 +1214,12 @@ func (p *prog) genBadUpload() *op {
 	switch p.r.Intn(4) {
 	case 0:
 		o := p.genUploadPart(u, 1, false)
-		o.class, o.eclass = "unknown-upload", "unknown-upload"
+		o.class = "unknown-upload"
+		if strings.HasPrefix(o.eclass, "wrong-") {
+			o.eclass = "unknown-upload+" + o.eclass
+		} else {
+			o.eclass = "unknown-upload"
+		}
 		if strings.HasSuffix(k, "/") {
 			o.eclass = "directory-object-with-data"
 		}
